@@ -3,19 +3,19 @@
 # replay input as a regression input (replayed first on every later run), revert.
 cd /verif
 for d in seeded/C*/; do
-  id=$(basename $d)
+  name=$(basename $d); id=${name%%-*}
   cd /repo; git diff --quiet || { echo "/repo dirty"; exit 2; }
-  git apply /verif/$d/patch.diff || { echo "$id: patch does not apply"; continue; }
+  git apply /verif/$d/patch.diff || { echo "$name: patch does not apply"; continue; }
   cd /verif; rm -rf replays/$id
   ./check $id quick > /tmp/reg_$id.log 2>&1
   f=$(ls replays/$id/*.json 2>/dev/null | head -1)
-  if [ -n "$f" ]; then mkdir -p regressions/$id; python3 - "$f" "regressions/$id/seeded-$id.json" "$id" <<'PY'
+  if [ -n "$f" ]; then mkdir -p regressions/$id; python3 - "$f" "regressions/$id/seeded-$name.json" "$name" <<'PY'
 import json,sys
 d=json.load(open(sys.argv[1]))
-json.dump({"property":sys.argv[3],"signature":d["signature"],"note":"input that exposes the seeded change /verif/seeded/%s (passes on the unchanged tree)"%sys.argv[3],"input":d["input"]},open(sys.argv[2],"w"))
+json.dump({"property":sys.argv[3][:3],"signature":d["signature"],"note":"input that exposes the seeded change /verif/seeded/%s (passes on the unchanged tree)"%sys.argv[3],"input":d["input"]},open(sys.argv[2],"w"))
 PY
-    echo "$id: kept $(python3 -c "import json;print(json.load(open('$f'))['signature'])")"
-  else echo "$id: no replay produced"; fi
+    echo "$name: kept $(python3 -c "import json;print(json.load(open('$f'))['signature'])")"
+  else echo "$name: no replay produced"; fi
   git -C /repo checkout -- .
 done
 rm -rf replays/*
